@@ -29,7 +29,11 @@ def scenario(h, sc: int):
         r = doc.render()
         return [r["html"], [d.name for d in r["dependencies"]]]
     if sc == 1:
-        x = h.Tag("div", dep("z", "1.0"), h.head_content(h.Tag("title", "t")), dep("y", "1.2", script={"src": "y.js"}),
+        rich = dep("w", "1.0", source={"subdir": "w"},
+                   script=[{"src": "w.js", "type": "module", "crossorigin": "anonymous", "integrity": "sha-x", "defer": ""}],
+                   stylesheet=[{"href": "w.css", "media": "print", "title": "t", "hreflang": "en"}],
+                   meta=[{"name": "n", "content": "c", "charset": "x", "http-equiv": "y"}])
+        x = h.Tag("div", dep("z", "1.0"), rich, h.head_content(h.Tag("title", "t")), dep("y", "1.2", script={"src": "y.js"}),
                   h.Tag("p", dep("z", "1.1"), h.head_content(h.Tag("style", "s")), h.head_content(h.Tag("title", "t"))))
         r = h.HTMLDocument(x).render()
         return [r["html"], [d.name + str(d.version) for d in r["dependencies"]]]
